@@ -1,5 +1,5 @@
 """Run every check against scratch copies with behaviour-preserving refactorings applied; anything reported is a false alarm.
-usage: python -m verif.tools.tryrefactors [<dir> ...]   (directories <n>/patch.diff; default /verif/refactors)"""
+usage: python -m verif.tools.tryrefactors [<dir> ...]   (directories <n>/patch.diff; default /verif/refactors and /verif/features)"""
 import concurrent.futures, glob, os, shutil, subprocess, sys, tempfile
 from verif.selftest.runner import make_copy, evaluate
 
@@ -52,7 +52,7 @@ def run(roots, repo_root="/repo", jobs=16, out=sys.stdout):
 
 
 def main() -> int:
-    roots = sys.argv[1:] or [os.path.join(HERE, "refactors")]
+    roots = [os.path.abspath(r) for r in sys.argv[1:]] or [os.path.join(HERE, "refactors"), os.path.join(HERE, "features")]
     n, bad, failed, _ = run(roots)
     return 1 if bad else 0
 
